@@ -620,9 +620,22 @@ func runGrefcount(c *Ctx) {
 				}
 				if ev.Kind == core.KReturn && ev.Frame.Parent == nil && obtained {
 					rs := returnExprs(p, i)
+					rfr := ev.Frame
+					// return helper(…): what the helper walked in place returned
+					for depth := 0; depth < 3 && len(rs) == 1; depth++ {
+						call, isCall := unparen(rs[0]).(*ast.CallExpr)
+						if !isCall {
+							break
+						}
+						ri, inl := g.rets[call]
+						if !inl {
+							break
+						}
+						rs, rfr = returnExprs(p, ri), p.Events[ri].Frame
+					}
 					handsBack := false
 					for _, r := range rs {
-						if t := ev.Frame.Info().TypeOf(r); t != nil && !isNilExpr(r, ev.Frame) {
+						if t := rfr.Info().TypeOf(r); t != nil && !isNilExpr(r, rfr) {
 							switch tt := t.Underlying().(type) {
 							case *types.Signature:
 								handsBack = true
